@@ -1,5 +1,7 @@
 """C16  touch makes the selected cone look completed without changing file contents."""
 
+import os
+
 from hypothesis import strategies as st
 
 from vlib import gen, hist, model, project
@@ -48,7 +50,10 @@ def _case(draw, tier):
             "patterns": draw(st.one_of(st.just([]), st.just([]), gen.patterns(names))),
             "future_source": draw(st.sampled_from([False, False, False, True])),
             # a coarse file-system clock: consecutive touch events may get the same timestamp
-            "coarse": draw(st.lists(st.booleans(), max_size=12))}
+            "coarse": draw(st.lists(st.booleans(), max_size=12)),
+            # outputs that are symbolic links into a data store (existing ones keep content and time; missing ones
+            # become links to a file that does not exist yet): the link itself is dated long ago
+            "link_outputs": draw(st.lists(st.integers(0, 13), max_size=2))}
 
 
 def strategy(tier):
@@ -72,6 +77,12 @@ def run_case(case):
         if case["future_source"] and sources:
             future = sources[0]
             proj.stamp(future, FUTURE)
+        outs_sorted = sorted(R.producers)
+        for k in case.get("link_outputs") or []:
+            p = outs_sorted[k % len(outs_sorted)] if outs_sorted else None
+            if p is not None and not os.path.islink(proj.path(p)):
+                proj.link_out(p, dangling=not os.path.exists(proj.path(p)))
+                labels.add("output-is-a-symlink")
         pats = case["patterns"]
         selected = model.match_names(names, pats) if pats else R.endpoints()
         cone = R.cone(selected)
@@ -98,6 +109,8 @@ def run_case(case):
         for k, x, y in proj.snap_diff(before, after):
             if k.startswith(".gwf/") or k == ".gwfconf.json":
                 continue
+            if x is not None and x[0] == "dangling-link":
+                x = None  # the file the link points to did not exist before
             if k not in cone_outputs:
                 viols.append(Violation({"kind": "touched-outside-cone"},
                                        f"{k} is not an output of the selected cone {sorted(cone)} but changed: {x} -> {y}"))
